@@ -401,6 +401,13 @@ def _build_args(call):
                 return m() if m is not None else x.dec()
             if op == "mod":
                 return x % abs(k) if type(x).__name__ in ("DMSAngle", "DDMAngle") else x.dec()
+            if op in ("iadd", "isub", "imul", "idiv"):
+                # augmented assignment: without an in-place method Python builds a new object and rebinds the local name; the
+                # caller's object must be what it was
+                import operator
+                t = x
+                t = {"iadd": operator.iadd, "isub": operator.isub, "imul": operator.imul, "idiv": operator.itruediv}[op](t, y if op in ("iadd", "isub") else k)
+                return (t, t is x)
             return {"add": lambda: x + y, "sub": lambda: x - y, "neg": lambda: -x, "abs": lambda: abs(x), "mul": lambda: x * k,
                     "div": lambda: x / k, "lt": lambda: x < y, "eq": lambda: x == y, "hp": lambda: x.hp(), "dms": lambda: (x.dms() if hasattr(x, "dms") else x.ddm()),
                     "rmul": lambda: k * x, "ne": lambda: x != y, "gt": lambda: x > y, "str": lambda: (str(x), repr(x)),
@@ -651,6 +658,7 @@ def call_strategy(families=False, raw_pool=False):
         _fd("angle_op", c1=st.sampled_from(["dec", "hp", "gon", "dms", "ddm"]), c2=st.sampled_from(["dec", "hp", "gon", "dms", "ddm"]),
             x=st.one_of(S.floats(-180, 180), S.floats(0, 90)), y=S.floats(-180, 180),
             op=st.sampled_from(["round0", "round1", "round2", "round5", "round8", "round1", "round3", "mod", "rmul", "ne", "gt", "str", "absneg", "self",
+                                "iadd", "isub", "imul", "idiv",
                                 "to:dec", "to:rad", "to:hp", "to:gon", "to:deca", "to:hpa", "to:gona", "to:dms", "to:ddm"]),
             k=st.sampled_from([2, 0.5, -3, 1.5, 7.25])),
     ]
@@ -742,7 +750,7 @@ ANGLE_FNS = ["dec>dec2hp", "dec>dec2gon", "dec>dec2dms", "dec>dec2ddm", "dec>dec
              "gon>gon2dec", "gon>gon2hp", "gon>gon2rad", "dec>dd2sec", "dec>dec2gona", "hp>hp2deca", "hp>hp2gona", "gon>gon2deca", "gon>gon2hpa",
              "gon>gon2dms", "gon>gon2ddm"]
 ANGLE_OPS = ["add", "sub", "neg", "abs", "mul", "div", "lt", "eq", "hp", "dms", "round0", "round2", "round5", "mod", "rmul", "ne", "gt", "str", "absneg",
-             "self", "to:dec", "to:rad", "to:hp", "to:gon", "to:deca", "to:hpa", "to:gona", "to:dms", "to:ddm"]
+             "self", "iadd", "isub", "imul", "idiv", "to:dec", "to:rad", "to:hp", "to:gon", "to:deca", "to:hpa", "to:gona", "to:dms", "to:ddm"]
 CLASSES = ["dec", "hp", "gon", "dms", "ddm"]
 
 
